@@ -13,6 +13,8 @@ META = {
     "note": "Trusted: Coq kernel; extraction (ExtrOcamlBasic only); harness/runner; Vec/usize semantics modelled (checked subtraction and drain ranges = panic). "
             "T is abstract in the theorem, u8 with two values in the differential runs.",
     "design_ref": "DESIGN.md section 3, C11",
+    "coq_targets": ["props/C11.vo", "Extract/StackExtract.vo"],
+    "bins": ["c11"],
 }
 
 
